@@ -95,7 +95,7 @@ def parseSH (f : Bytes) (p dataSize : Nat) (a : Sv8) : Except PyErr (Sv8 × Nat)
       match sv8Int f 9 (p1 + 1 + l1) 0 0 with
       | none => .error .mutagen
       | some (samplesSkip, l2) =>
-        -- a negative `remaining_size` makes `read` return the rest of the file, whose length differs
+        -- a negative `remaining_size`: "SH packet ended unexpectedly."
         if dataSize < 4 + 1 + l1 + l2 then .error .mutagen
         else
           let remaining := dataSize - (4 + 1 + l1 + l2)
